@@ -219,7 +219,7 @@ def nan_refused(ctx, prop, sites, why):
     rule = prop + '.G.unordered-refused'
     for clsname, meth, param in sites:
         cls = ctx.repo.find_class(clsname)
-        f = cls.methods.get(meth)
+        f = cls.own(meth)
         if f is None:
             raise AnalysisError('%s: anchor vanished: %s.%s' % (rule, clsname, meth))
         if param not in f.params:
@@ -313,7 +313,7 @@ def absorbed_put_refused(ctx, prop):
     domain {0, eps, C} with C + eps = C; it must come out False."""
     rule = prop + '.G.absorbed-put'
     c = ctx.repo.find_class('Container')
-    f = c.methods.get('_do_put')
+    f = c.own('_do_put')
     if f is None:
         raise AnalysisError('%s: anchor vanished: Container._do_put' % rule)
     f = f.normalized()          # nested ifs read as one conjunction, guard temporaries inlined
@@ -363,7 +363,7 @@ def stored_level_tested(ctx, prop):
     from ..terms import term
     rule = prop + '.G.stored-level-tested'
     c = ctx.repo.find_class('Container')
-    f = c.methods.get('_do_put')
+    f = c.own('_do_put')
     if f is None:
         raise AnalysisError('%s: anchor vanished: Container._do_put' % rule)
     f = f.normalized()
@@ -391,7 +391,10 @@ def stored_level_tested(ctx, prop):
             stored.append((n, canon(ast.BinOp(left=ast.Attribute(value=ast.Name(id='self', ctx=ast.Load()), attr=n.target.attr, ctx=ast.Load()),
                                                op=ast.Add(), right=n.value))))
     if not stored:
-        raise AnalysisError('%s: Container._do_put stores no level any more' % rule)
+        # deferred like a floor: with a violation from the tables of the same tree that verdict stands; alone it is
+        # analysis-broken, never a silent pass
+        ctx.floor_errors.append('%s: Container._do_put stores no level any more' % rule)
+        return
     tested = set()
     for n in walk_local(f.node):
         if isinstance(n, ast.Compare) and len(n.ops) == 1:
@@ -420,4 +423,125 @@ def stored_level_tested(ctx, prop):
             ctx.violation(rule, construct, 'stored level not tested',
                           'Container._do_put stores %s, a sum the guard never compares with the capacity (it tests %s): the rounded sum '
                           'can exceed the capacity although the room test passed' % (val, sorted(tested) or 'nothing of that form'),
+                          where='%s:%d' % (f.module.relpath, n.lineno))
+
+
+# ------------------------------------------------------------------------------------------------------------------
+# inf - inf: the room of an inexhaustible source
+
+def _inf_eval(e, env, temps, depth=0):
+    """value in the abstract domain {'INF', 'NAN', 'fin' (finite, positive), 0, None}"""
+    if isinstance(e, ast.Name) and e.id in temps and depth < 4:
+        return _inf_eval(temps[e.id], env, temps, depth + 1)
+    key = ast.unparse(e)
+    if key in env:
+        return env[key]
+    if isinstance(e, ast.Constant) and e.value == 0:
+        return 0
+    if isinstance(e, ast.BinOp) and isinstance(e.op, (ast.Add, ast.Sub)):
+        l, r = _inf_eval(e.left, env, temps, depth), _inf_eval(e.right, env, temps, depth)
+        if l is None or r is None:
+            return None
+        if 'NAN' in (l, r):
+            return 'NAN'
+        if isinstance(e.op, ast.Add):
+            if 'INF' in (l, r):
+                return 'INF'
+            if l == 0:
+                return r
+            if r == 0:
+                return l
+            return 'fin'
+        if (l, r) == ('INF', 'INF'):
+            return 'NAN'
+        if l == 'INF':
+            return 'INF'
+        if r == 0:
+            return l
+        return None
+    return None
+
+
+def _inf_cond(t, env, temps, depth=0):
+    if isinstance(t, ast.Name) and t.id in temps and depth < 4:
+        return _inf_cond(temps[t.id], env, temps, depth + 1)
+    if isinstance(t, ast.UnaryOp) and isinstance(t.op, ast.Not):
+        v = _inf_cond(t.operand, env, temps, depth)
+        return None if v is None else (not v)
+    if isinstance(t, ast.BoolOp):
+        vs = [_inf_cond(v, env, temps, depth) for v in t.values]
+        if isinstance(t.op, ast.And):
+            if any(v is False for v in vs):
+                return False
+            return True if all(v is True for v in vs) else None
+        if any(v is True for v in vs):
+            return True
+        return False if all(v is False for v in vs) else None
+    if isinstance(t, ast.Compare):
+        left, out = t.left, True
+        rank = {0: 0, 'fin': 1, 'INF': 2}
+        for op, right in zip(t.ops, t.comparators):
+            l, r = _inf_eval(left, env, temps), _inf_eval(right, env, temps)
+            if l is None or r is None:
+                return None
+            if 'NAN' in (l, r):
+                v = isinstance(op, ast.NotEq)
+            elif l == r == 'fin':
+                return None
+            else:
+                a, b = rank[l], rank[r]
+                v = {ast.Lt: a < b, ast.LtE: a <= b, ast.Gt: a > b, ast.GtE: a >= b, ast.Eq: a == b, ast.NotEq: a != b}.get(type(op))
+                if v is None:
+                    return None
+            out = out and v
+            left = right
+        return out
+    return None
+
+
+def infinite_source_put(ctx, prop):
+    """Container(init=inf) with the default capacity inf is an inexhaustible source; a put into it fits (inf + a <= inf).
+    A room test written as `capacity - level >= amount` computes inf - inf = NaN there and refuses every put for ever -
+    a stranded request.  The grant guard of Container._do_put is evaluated with level = capacity = inf and a finite
+    positive amount (inf - inf = NaN, every ordering comparison with NaN False); it must come out True."""
+    rule = prop + '.G.infinite-source'
+    c = ctx.repo.find_class('Container')
+    f = c.own('_do_put')
+    if f is None:
+        raise AnalysisError('%s: anchor vanished: Container._do_put' % rule)
+    f = f.normalized()
+    evname = [p for p in f.params if p != 'self'][0]
+    env = {'self._level': 'INF', 'self.level': 'INF', 'self._capacity': 'INF', 'self.capacity': 'INF', '%s.amount' % evname: 'fin'}
+    temps, count = {}, {}
+    for n in walk_local(f.node):
+        if isinstance(n, ast.Assign) and len(n.targets) == 1 and isinstance(n.targets[0], ast.Name):
+            temps[n.targets[0].id] = n.value
+            count[n.targets[0].id] = count.get(n.targets[0].id, 0) + 1
+    temps = {k: v for k, v in temps.items() if count[k] == 1}
+    grants = []
+    for n in walk_local(f.node):
+        if isinstance(n, ast.If):
+            has = lambda body: any(isinstance(x, ast.Call) and isinstance(x.func, ast.Attribute) and x.func.attr == 'succeed'
+                                   for s_ in body for x in ast.walk(s_))
+            if has(n.body) or has(n.orelse):
+                grants.append((n, has(n.body)))
+    if not grants:
+        for n in walk_local(f.node):
+            if isinstance(n, ast.If) and n.body and isinstance(n.body[-1], ast.Return) and not n.orelse:
+                grants.append((n, False))
+    if not grants:
+        raise AnalysisError('%s: no grant guard found in Container._do_put' % rule)
+    construct = '%s::%s' % (f.module.relpath, f.qualname)
+    for n, positive in grants:
+        v = _inf_cond(n.test, env, temps)
+        granted = v if positive else (None if v is None else (not v))
+        ok = granted is True
+        ctx.ob(rule, ok)
+        if ok:
+            ctx.sample(rule, construct, 'guard %s grants a finite put into an infinite level under an infinite capacity' % ast.unparse(n.test)[:120])
+        else:
+            ctx.violation(rule, construct, 'put into an infinite level refused',
+                          'Container._do_put: the guard `%s` %s when level == capacity == inf (capacity - level is NaN): every put '
+                          'into an inexhaustible source is stranded for ever' %
+                          (ast.unparse(n.test)[:160], 'fails' if granted is False else 'cannot be shown to hold'),
                           where='%s:%d' % (f.module.relpath, n.lineno))
